@@ -889,7 +889,9 @@ def do_mk(w, op):
     vals = op["vals"]
     if dt.startswith("complex"):
         vals = [complex(v[0], v[1]) for v in vals]
-    root = np.array(vals, dtype=dt).reshape(op["shape"])
+    # (copy: reshape returns a view, and a root must OWN its memory - root.base is None - to stand for "a plain
+    # ndarray the caller created", which is what library code may be tempted to treat as a private temporary)
+    root = np.array(vals, dtype=dt).reshape(op["shape"]).copy()
     if op.get("ro"):
         root.flags.writeable = False
     reg = w.reg(op["reg"])
